@@ -68,7 +68,18 @@ func CompileRego(regoUnit *generator.RegoUnit, eventChan *chan e.Event) (*rego.P
 	query := rego.Query("data." + regoUnit.Name + "." + regoUnit.Entrypoint)
 	module := rego.Module(regoUnit.Name+".rego", regoUnit.Code)
 	unsafeBuiltins := rego.UnsafeBuiltins(unsafeBuiltinsMap)
-	preparedEvalQuery, err := rego.New(query, module, unsafeBuiltins).PrepareForEval(context.Background())
+	preparedEvalQuery, err := prepareForEval(rego.New(query, module, unsafeBuiltins))
 	dispatchEvent(e.NewEvent(e.RegoCompilationDone), eventChan)
 	return &preparedEvalQuery, err
+}
+
+// prepareForEval compiles the policy; the engine rejects some custom rego by panicking (a call in the domain of `every` makes its
+// type checker panic with "unreachable"): report it as an error like every other rejection
+func prepareForEval(policy *rego.Rego) (prepared rego.PreparedEvalQuery, err error) {
+	defer func() {
+		if r := recover(); r != nil {
+			err = fmt.Errorf("cannot compile Rego: %v", r)
+		}
+	}()
+	return policy.PrepareForEval(context.Background())
 }
